@@ -2,7 +2,7 @@
 from pyvc.api import (Const, Enum, Int, Items, ListOf, Loop, Named, Obj, Opt, Real, Ref, Str,
                       TupleOf, contract, harness, implies, forall)
 
-BIND = {"Psize": "pdb2pqr.psize:Psize", "Atom": "pdb2pqr.structures:Atom", "Input": "pdb2pqr.inputgen:Input"}
+BIND = {"Psize": "pdb2pqr.psize:Psize", "Atom": "pdb2pqr.structures:Atom", "Input": "pdb2pqr.inputgen:Input", "print_pqr": "pdb2pqr.main:print_pqr"}
 
 
 def V3():
@@ -199,6 +199,29 @@ def parse_two(a, b, chainflag):
              a.get_pqr_string(chainflag=chainflag) + "\n",
              "REMARK   5\n", b.get_pqr_string(chainflag=chainflag) + "\n", "TER\n", "END"]
     size.parse_lines(lines)
+    return size
+
+
+# --apbs-input together with --whitespace: the grid is sized from the re-spaced file (print_pqr moves the columns)
+from pyvc.api import TmpPath, Obj as _Obj  # noqa: E402
+
+
+@harness("C17",
+         params={"a": PATOM("a"), "b": PATOM("b", type=Const("HETATM")), "chainflag": Const(True),
+                 "args": _Obj("Namespace", output_pqr=TmpPath(), whitespace=Const(True))},
+         requires=[FITS.format(a="a"), FITS.format(a="b")],
+         ensures=[
+             "result.minlen[0] == min(lo(a, a.x), lo(b, b.x)) and result.maxlen[0] == max(hi(a, a.x), hi(b, b.x))",
+             "result.minlen[1] == min(lo(a, a.y), lo(b, b.y)) and result.maxlen[1] == max(hi(a, a.y), hi(b, b.y))",
+             "result.minlen[2] == min(lo(a, a.z), lo(b, b.z)) and result.maxlen[2] == max(hi(a, a.z), hi(b, b.z))",
+             "result.gotatom + result.gothet == 2",
+         ],
+         name="parse_lines.whitespace_layout")
+def parse_ws(a, b, chainflag, args):
+    print_pqr(args, [a.get_pqr_string(chainflag=chainflag) + "\n", b.get_pqr_string(chainflag=chainflag) + "\n", "TER\nEND"],
+              "", None, False)
+    size = Psize()
+    size.parse_input(args.output_pqr)
     return size
 
 
